@@ -165,6 +165,61 @@ def guarded_growth(prog, fn, c, adt, field):
 LENCHG = {'filter', 'filter_map', 'skip', 'skip_while', 'take_while', 'take', 'step_by', 'retain', 'dedup', 'truncate', 'drain'}
 
 
+def end_sites(prog, f, cache_adt, depth=0):
+    """The places where the page iterator (or a helper whose None it propagates with `?`) ends the iteration.
+    Returns (sites, bad): sites = [(bb, node)], bad = [(where, why)] for the sites that are neither "no page group left" nor
+    "loading the group failed"."""
+    sites, bad = [], []
+    for i, b in f.blocks.items():
+        for st in b['stmts']:
+            if st['dst']['l'] == 0 and not st['dst']['p'] and st['r']['rv'] == 'agg' and st['r']['kind'].endswith('Option::None'):
+                sites.append((i, st))
+                ok_edge = False
+                for (sbb, discr, vals, neg) in f.conditions_at(i):
+                    d = mir.provenance(f, discr, follow_all_call_args=True)
+                    cmp_len = any(op in ('Ge', 'Gt', 'Le', 'Lt', 'Eq') for op, _ in d.binops) and any(x.short == 'len' for x in d.calls)
+                    load_err = any(x.short in ('is_err', 'is_ok') or (x.callee.startswith(cache_adt + '::')) for x in d.calls)
+                    if cmp_len or load_err:
+                        ok_edge = True
+                if not ok_edge:
+                    bad.append((f.where(st), 'None is returned on a path that tests neither "no group left" nor "loading failed"'))
+    # `x?` on an Option: what is x?
+    if any(c.short == 'from_residual' for c in f.calls):
+        for c in f.calls:
+            if c.short != 'branch' or not c.args or not re.search(r'^std::option::Option<', f.ty.get(c.arg_local(0), '') or ''):
+                continue
+            sites.append((c.bb, c.t))
+            src = mir.provenance(f, c.args[0], follow_all_call_args=False)
+            why = None
+            helper = None
+            for x in src.calls:
+                g = prog.resolve(x.callee, f.crate)
+                if x.short in ('pop_front', 'pop', 'pop_back', 'remove', 'front', 'back', 'first', 'last') and re.search(r'VecDeque|Vec', x.callee):
+                    why = 'a `?` on an Option turns an empty queue into the end of the iteration'
+                elif g is not None and g.kind in ('Fn', 'AssocFn') and re.search(r'^std::option::Option<', g.ty.get(0) or ''):
+                    helper = g
+            first = None
+            d0 = f.single_def(c.arg_local(0)) if c.arg_local(0) is not None else None
+            if d0 and d0[2] == 'call':
+                first = f.call_at[d0[0]]
+            if why is None and first is not None:
+                if first.short in ('get', 'get_mut') and re.search(r'Vec<std::vec::Vec<u32|\[std::vec::Vec<u32', f.ty.get(first.arg_local(0), '') or ''):
+                    continue          # page_groups.get(idx)?  — no group left
+                if first.short in ('ok', 'err'):
+                    o2 = mir.provenance(f, first.args[0], follow_all_call_args=False)
+                    if any(x.callee.startswith(cache_adt + '::') for x in o2.calls):
+                        continue      # load_pages(..).ok()?  — loading failed
+                if helper is not None and prog.resolve(first.callee, f.crate) is helper and depth < 2:
+                    hs, hb = end_sites(prog, helper, cache_adt, depth + 1)
+                    if hs and not hb:
+                        continue      # a helper that itself only ends on those two conditions
+                    if hb:
+                        bad.append(hb[0])
+                        continue
+            bad.append((c.where(), why or 'a `?` ends the iteration on a condition that is neither "no group left" nor "loading failed"'))
+    return sites, bad
+
+
 def r20cd(prog, rep, cache_adt, iter_adt):
     """R20c: every page popped by the iterator is yielded (no skipping); R20d: every requested page is loaded."""
     nxt = [f for f in prog.product_fns() if f.name.startswith('<' + iter_adt) and f.name.endswith('::next')]
@@ -212,28 +267,15 @@ def r20cd(prog, rep, cache_adt, iter_adt):
                 rep.ok('R20e', k2, where=where, fn=f.name, detail='the queue is refilled with the complete next group')
             else:
                 rep.violation('R20e', k2, where=where, fn=f.name, detail='the queue is not refilled from the page groups')
-        nones = [(i, st) for i, b in f.blocks.items() for st in b['stmts']
-                 if st['dst']['l'] == 0 and not st['dst']['p'] and st['r']['rv'] == 'agg' and st['r']['kind'].endswith('Option::None')]
-        residual = [c for c in f.calls if c.short == 'from_residual']
         k3 = '%s|ends-only-when-groups-exhausted-or-load-failed' % f.name
-        bad_end = None
-        for c in residual:
-            bad_end = bad_end or (c.where(), 'a `?` on an Option turns an empty queue into the end of the iteration')
-        for (i, st) in nones:
-            ok_edge = False
-            for (sbb, discr, vals, neg) in f.conditions_at(i):
-                d = mir.provenance(f, discr, follow_all_call_args=True)
-                cmp_len = any(op in ('Ge', 'Gt', 'Le', 'Lt', 'Eq') for op, _ in d.binops) and any(x.short == 'len' for x in d.calls)
-                load_err = any(x.short in ('is_err', 'is_ok') or (x.callee.startswith(cache_adt + '::')) for x in d.calls)
-                if cmp_len or load_err:
-                    ok_edge = True
-            if not ok_edge:
-                bad_end = bad_end or (f.where(st), 'None is returned on a path that tests neither "no group left" nor "loading failed"')
+        nones, bad_ends = end_sites(prog, f, cache_adt)
+        bad_end = bad_ends[0] if bad_ends else None
         if bad_end:
             rep.violation('R20e', k3, where=bad_end[0], fn=f.name,
                           detail='%s: later groups (including the remainder group holding every page not named by a hint) are never visited' % bad_end[1])
         elif nones:
-            rep.ok('R20e', k3, where=f.where(nones[0][1]), fn=f.name, detail='%d `return None` site(s), each behind the group-count test or the load-failure test' % len(nones))
+            rep.ok('R20e', k3, where=f.where(nones[0][1]) if 'sp' in nones[0][1] else '', fn=f.name,
+                   detail='%d end-of-iteration site(s), each behind the group-count test or the load-failure test' % len(nones))
         else:
             rep.violation('R20e', 'anchor-lost:none-returns', fn=f.name, detail='anchor lost: the iterator never returns None')
     loaders = [f for f in prog.product_fns() if f.name.startswith(cache_adt + '::') and
@@ -278,7 +320,16 @@ def r20f(prog, rep):
     if not rep.anchor('page loop of the statement parser (regex test guarding the table parser)', [c[0].name for c in cands]):
         return
     for (f, nc, header, body, tests, parsers) in cands:
-        pc = parsers[0]
+        # the table parser: the crate function whose result becomes the returned StatementFmvs (other helpers, e.g. the statement-date
+        # finder, may run on every page)
+        ok_ops = [o for b in f.blocks.values() for st in b['stmts'] if st['dst']['l'] == 0 and st['r']['rv'] == 'agg' and st['r']['kind'].endswith('Result::Ok')
+                  for o in st['r']['ops']]
+        feeds = set()
+        for o in ok_ops:
+            org = mir.provenance(f, o, follow_all_call_args=False)
+            feeds |= {x.bb for x in org.calls}
+        guarded = [p_ for p_ in parsers if any(f.dominates(t.bb, p_.bb) and t.bb != p_.bb for t in tests)]
+        pc = ([p_ for p_ in guarded if p_.bb in feeds] or guarded or parsers)[0]
         markers = [t for t in tests if f.dominates(t.bb, pc.bb) and t.bb != pc.bb]
         k = '%s|every-page-is-tested-for-the-table' % f.name
         if not markers:
